@@ -594,6 +594,25 @@ def catalogue(ctx):
                 except Exception as e:  # pylint: disable=broad-except
                     got = qx.err_class(e)
                     msg = str(e)
+                # the same call with every argument passed positionally, and by keyword in reversed order
+                styles = []
+                all_positional = all(pp.kind == inspect.Parameter.POSITIONAL_OR_KEYWORD
+                    for pp in inspect.signature(fn).parameters.values())
+                calls = [("keywords reversed", lambda: fn(**dict(reversed(list(kwargs.items())))))]
+                if all_positional:
+                    calls.append(("positional", lambda: fn(*[kwargs[q] for q in params])))
+                for label, call in calls:
+                    try:
+                        call()
+                        styles.append((label, None, ""))
+                    except Exception as e:  # pylint: disable=broad-except
+                        styles.append((label, qx.err_class(e), str(e)))
+                for label, g2, m2 in styles:
+                    if g2 != got or (f"'{p}'" in msg) != (f"'{p}'" in m2):
+                        ctx.violation(f"C04:catalogue:{mod.__name__}.{name}:{p}:call-style",
+                            f"the verdict on parameter {p} of {mod.__name__}.{name} depends on the call style ({label})",
+                            {"kind": "violation", "item": f"{mod.__name__}.{name}", "param": p, "wrong": str(wrong),
+                             "observed": {"keyword": [got, msg[:200]], label: [g2, m2[:200]]}, "expected": "the same verdict"})
                 if got != E_UNITS or f"'{p}'" not in msg:
                     ctx.violation(f"C04:catalogue:{mod.__name__}.{name}:{p}",
                         f"guarded parameter {p} of {mod.__name__}.{name} did not refuse a wrong-dimension quantity with a units error naming it",
